@@ -292,6 +292,35 @@ def rule_escapes(ctx, rule_id="C16.escapes"):
               "the string encoder no longer uses the escape table", file=m.relpath, line=pe.node.lineno, function=pe.qualname,
               expected="'\"' + ESCAPE.sub(lambda m: ESCAPE_DCT[m.group(0)], s) + '\"'", found=short(pe.node, 160))
     # ensure_ascii False on the canonical path: decided with the defaults in C16.key-order
+    # what canonicalize() / serialize() hand out IS the encoder's text (or its UTF-8 bytes): any transformation in between
+    # (replace, translate, re.sub, a helper) changes which characters are escaped or how -- RFC 8785 fixes both
+    from ..cfg import ReachingDefs, cfg_of
+
+    def encoder_text(e, rd, node, depth=0):
+        if depth > 4:
+            return False
+        if isinstance(e, ast.Call) and isinstance(e.func, ast.Attribute) and e.func.attr == "encode":
+            recv = e.func.value
+            if isinstance(recv, ast.Call) and call_simple_name(recv) == "JSONEncoder":
+                return len(e.args) == 1                      # JSONEncoder(...).encode(obj)
+            if len(e.args) <= 1 and not e.keywords:
+                return encoder_text(recv, rd, node, depth + 1)   # text.encode() -> bytes
+            return False
+        if isinstance(e, ast.Name):
+            defs = rd.reaching(node, e.id)
+            return bool(defs) and all(isinstance(v, ast.AST) and encoder_text(v, rd, dn, depth + 1) for dn, v in defs)
+        return False
+    for fname in ("canonicalize", "serialize"):
+        f_ = prog.func(CAN + "::" + fname)
+        g_ = cfg_of(f_)
+        rd_ = ReachingDefs(g_, f_.all_param_names())
+        rets = [r for r in body_walk(f_.node) if isinstance(r, ast.Return)]
+        bad = [r for r in rets if r.value is None or not encoder_text(r.value, rd_, g_.node_of(r))]
+        run.check(bool(rets) and not bad, R, key(m.relpath, f_.qualname, "returns-the-encoder-text"),
+                  "%s() does not return the encoder's text as produced: a transformation between the encoder and the result changes "
+                  "which characters are escaped (RFC 8785: exactly C0 controls, quote and backslash, in the fixed forms)" % fname,
+                  file=m.relpath, line=(bad[0].lineno if bad else f_.node.lineno), function=f_.qualname,
+                  expected="return JSONEncoder(...).encode(obj)  /  its .encode() as UTF-8", found=[short(r, 100) for r in bad])
 
 
 def rule_number_constants(ctx, rule_id="C16.number-constants"):
